@@ -44,6 +44,7 @@ FOCUS = {
     "project": {"mk_vec": 4.0, "basis_misc": 6.0, "basis_interpolate": 1.5,
                 "basis_derive": 1.0, "mk_form": 0.5, "assemble": 1.0},
     "points": {"mk_vec": 2.0, "basis_point": 6.0, "mesh_finder": 3.0,
+               "mk_points": 2.0, "points_overwrite": 2.5,
                "basis_interpolate": 1.5, "basis_misc": 1.5,
                "mesh_refined": 0.7},
     "meshes": {"mesh_refined": 2.0, "mesh_transform": 2.0, "mesh_restrict": 2.0,
@@ -315,7 +316,11 @@ def execute(trace, use_pristine=True):
             post = {r: C.operand_arrays(W[r]) for r in refs}
             log.append((k, o["op"], _log_canon(res)))
             # ---- H2 operand immutability
+            own = {o["args"][c]["ref"]
+                   for c in getattr(O.OPS[o["op"]], "mutates", ())}
             for r in refs:
+                if r in own:
+                    continue      # overwritten by the caller, on purpose
                 if pre[r] != post[r]:
                     cls = "H2-operand-mutated"
                     if r in pre_v and pre_v[r] == C.operand_arrays(
@@ -362,6 +367,10 @@ def execute(trace, use_pristine=True):
                                             "ref_hashseed": REF.hashseed})
                     break
             # ---- bookkeeping
+            if own and exc is None:
+                # the caller's own buffer: earlier hand-outs of the same
+                # object are expected to show the new values
+                retained = [x for x in retained if x[2] is not val]
             if exc is None and val is not None:
                 retained.append((k, o["op"], val, _log_canon(res)))
                 del retained[:-RETAIN]
